@@ -31,6 +31,10 @@ pub fn judge(g: &G, text: &str, shell: &str) -> Result<Option<(usize, usize)>, F
         Err(_) => return Ok(None),
     };
     let want = &built.dfa;
+    if obs::equal_language_twin_words(&obs::view(&c.raw, shell)) {
+        obs::TWIN_REGION_EXCLUDED.fetch_add(1, std::sync::atomic::Ordering::Relaxed);
+        return Ok(None);
+    }
     for (which, d) in [("raw", &c.raw), ("minimised", &c.min)] {
         let v = obs::view(d, shell);
         let got = v.nfa.determinize();
@@ -258,6 +262,10 @@ pub fn run(tier: Tier, seed: u64) -> i32 {
         return run.finish();
     }
     run.random("random-dense", tier.pick(200_000, 6_000_000), 600, case_dense);
+    run.extra.insert(
+        "excluded_known_finding_region".into(),
+        json!({"what": "(grammar, shell) instances in which a state expects two within-word automata with equal word languages that complgen keeps apart (C09's known finding F-permuted-twin-words)", "count": obs::TWIN_REGION_EXCLUDED.load(std::sync::atomic::Ordering::Relaxed)}),
+    );
     run.finish()
 }
 
